@@ -302,7 +302,7 @@ Section Merged.
   Proof.
     destruct merged_analyse as (es1 & es2 & Hes & HR).
     destruct (preset_ok_facts reps Hok) as (_ & _ & Hex & Heff & Htm).
-    unfold spec_ok, spec_bits. rewrite HE, HR, Htm, (second_run es1 es2). cbn [result_file].
+    unfold spec_ok, spec_bits. rewrite HE, HR, Htm, (second_run es1 es2 Hes). cbn [result_file].
     unfold spec_bits_r. cbn [forallb].
     rewrite (bit_valid es1 es2 Hes _ Hex), merged_preserved, (bit_in_effect es1 es2 Hes), (bit_only_missing es1 es2 Hes),
             (bit_complete es1 es2 Hes), (bit_added_content es1 es2 Hes _ Heff), lines_eqb_refl.
